@@ -323,6 +323,12 @@ class Frame(object):
         if isinstance(k, slice):
             lo, hi, step = k.start, k.stop, k.step
             if step is not None and step != 1:
+                if isinstance(o, SSeq) and isinstance(step, int) and step > 1:
+                    n = o.n
+                    a = V.clamp_index(ops.as_int(lo), n) if lo is not None else z3.IntVal(0)
+                    b = V.clamp_index(ops.as_int(hi), n) if hi is not None else n
+                    cnt = V.simp(z3.If(b > a, (b - a + step - 1) / step, z3.IntVal(0)))
+                    return SSeq(cnt, lambda j, xat=o._at, a=a, step=step: xat(V.simp(a + V.iv(j) * step)), o.kind, o.elem)
                 if V.is_symbolic(o) or V.is_symbolic([lo, hi]):
                     raise E.Unsupported('extended slice')
                 return o[k]
@@ -401,9 +407,27 @@ class Frame(object):
             except IndexError:
                 raise_(IndexError, 'list assignment index out of range')
             return None
+        if isinstance(o, SSeq) and o.kind in ('list', 'bytearray') and isinstance(k, slice) and k.step is not None \
+                and k.step != 1:
+            # extended slice: the number of values must equal the number of selected positions (else ValueError)
+            from . import models
+            P = E.cur()
+            step = k.step
+            if not (isinstance(step, int) and step > 1):
+                raise E.Unsupported('extended slice assignment with step %r' % (step,))
+            n = o.n
+            lo = V.clamp_index(ops.as_int(k.start), n) if k.start is not None else z3.IntVal(0)
+            hi = V.clamp_index(ops.as_int(k.stop), n) if k.stop is not None else n
+            cnt = V.simp(z3.If(hi > lo, (hi - lo + step - 1) / step, z3.IntVal(0)))
+            mid = models.typed_seq_of(o, v)
+            if P.branch(mid.n != cnt):
+                raise_(ValueError, 'attempt to assign sequence of size to extended slice of different size')
+            old = o._at
+            mat = mid._at
+            o.set(n, lambda j, old=old, mat=mat, lo=lo, hi=hi, step=step: V.ite(
+                V.simp(z3.And(V.iv(j) >= lo, V.iv(j) < hi, (V.iv(j) - lo) % step == 0)), mat(V.simp((V.iv(j) - lo) / step)), old(j)))
+            return None
         if isinstance(o, SSeq) and o.kind in ('list', 'bytearray') and isinstance(k, slice):
-            if k.step is not None:
-                raise E.Unsupported('extended slice assignment')
             from . import models
             n = o.n
             lo = V.clamp_index(ops.as_int(k.start), n) if k.start is not None else z3.IntVal(0)
